@@ -67,7 +67,9 @@ THEOREMS = ["link_tables", "validTree_iff", "validTree_connects", "aStar_path", 
             "aStar_complete", "aStar_only_disconnected", "stronglyConnected_sound", "aStar_succeeds",
             # round 3: the repair loop
             "aStar_path_simple", "RInv_iff", "copyAndDisconnect_forest", "repairOne_preserves",
-            "avoidDeadLinks_valid", "legacy_two_parents_witness"]
+            "avoidDeadLinks_valid", "legacy_two_parents_witness",
+            "copyAndDisconnect_total", "repairOne_only_disconnected", "route_only_failure",
+            "route_succeeds_strongly_connected"]
 
 RULE = ("machines 1x1..12x12 (incl. 1xN, 2xN), torus / mesh / partly wrapped, 0-30% dead directed links (half of them "
         "dead in one direction only), dead chips; one net per case with fan-out 0-12, sinks on the source chip, "
